@@ -236,6 +236,10 @@ func Main(id string) {
 	stop = r.Expired
 	if PartFraction > 0 {
 		stop = func() bool { return r.ExpiredFrac(PartFraction) }
+	} else if id == "C01" {
+		// Search 2 keeps a share of its own: on a loaded machine Search 1 used to run into the deadline and the
+		// message-level search was never started
+		stop = func() bool { return r.ExpiredFrac(0.72) }
 	}
 	// quick: reduced round alphabet to depth 4; thorough: full alphabet (see DESIGN) to depth 4,
 	// which the -reduced flag can trade for a deeper reduced-alphabet search
@@ -375,6 +379,9 @@ func Main(id string) {
 			Stop: func() bool {
 				if nc.ReplicaOnly && r.Quick() && PartFraction > 0 && r.ExpiredFrac(PartFraction*0.5) {
 					return true // leave at least half of the part's time to the placement in which the Byzantine node leads
+				}
+				if id == "C01" && r.Quick() && ((nc.Cfg.Late && r.ExpiredFrac(0.25)) || (nc.ReplicaOnly && r.ExpiredFrac(0.45))) {
+					return true // quick shares: Late placement, replica-only placement, then the placement in which the Byzantine node leads
 				}
 				if !r.Quick() && !nc.Negative && r.ExpiredFrac(shareEnd) {
 					return true
